@@ -79,6 +79,11 @@ type gradient struct {
 	extend   [2]bool                // paint beyond the start / the end
 	alpha    float64                // constant alpha applied on top (PDF ca, SVG fill-opacity)
 	desc     string
+	// radial: the gradient between the circle (p0, r0) at t=0 and the circle (p1, r1) at t=1 (PDF
+	// 8.7.4.5.4, SVG 2 13.2.3: the focal circle is the start): a point takes the largest t for which
+	// it lies on the circle (p0 + t(p1-p0), r0 + t(r1-r0)) of non-negative radius
+	radial bool
+	r0, r1 float64
 }
 
 // at returns the paint at q and whether anything is painted there.
@@ -87,7 +92,12 @@ func (g *gradient) at(q oracle.Pt) (colour, bool) {
 	d := g.p1.Sub(g.p0)
 	dd := d.Dot(d)
 	t := 0.0
-	if dd > 0 {
+	if g.radial {
+		var ok bool
+		if t, ok = g.radialT(p); !ok {
+			return colour{}, false
+		}
+	} else if dd > 0 {
 		t = p.Sub(g.p0).Dot(d) / dd
 	}
 	if t < 0 {
@@ -105,6 +115,40 @@ func (g *gradient) at(q oracle.Pt) (colour, bool) {
 	c := g.colourAt(t)
 	c.a *= g.alpha
 	return c, true
+}
+
+// radialT solves |p - (p0 + t cd)| = r0 + t dr for the largest t with a non-negative radius.
+func (g *gradient) radialT(p oracle.Pt) (float64, bool) {
+	cd := g.p1.Sub(g.p0)
+	dr := g.r1 - g.r0
+	pd := p.Sub(g.p0)
+	a := cd.Dot(cd) - dr*dr
+	b := pd.Dot(cd) + g.r0*dr
+	c := pd.Dot(pd) - g.r0*g.r0
+	ok := func(t float64) bool { return g.r0+t*dr >= 0 }
+	if math.Abs(a) < 1e-14*math.Max(1, cd.Dot(cd)+dr*dr) {
+		if b == 0 {
+			return 0, false
+		}
+		t := c / (2 * b)
+		return t, ok(t)
+	}
+	disc := b*b - a*c
+	if disc < 0 {
+		return 0, false
+	}
+	sq := math.Sqrt(disc)
+	t1, t2 := (b+sq)/a, (b-sq)/a
+	if t1 < t2 {
+		t1, t2 = t2, t1
+	}
+	if ok(t1) {
+		return t1, true
+	}
+	if ok(t2) {
+		return t2, true
+	}
+	return 0, false
 }
 
 // raster is a sampled image placed on the canvas: toPix takes a canvas point (mm, y up) to image
